@@ -11,7 +11,6 @@ NOT_APPLICABLE = {
     'C01': 'bounded-liveness over whole histories of Layout::tick/do_action + Kanata; contracts state single calls and neither installed verifier takes those functions (DESIGN 2, 4)',
     'C04': 'trace equivalence with a layered-keymap model; the resolving functions are iterator chains on a Layout instance: Verus rejects them, Kani needs 4 min..OOM for the smallest (DESIGN 2)',
     'C07': 'relational (two executions) over every prefix, gap and continuation; sufficiency of the 20-way idle conjunction is exactly that relation',
-    'C08': 'Layout::process_sequences on a symbolic macro does not finish under Kani (68 s for one concrete macro); not claimed on a concrete-input harness',
     'C12': 'acceptance loop is parser code over patricia_tree, run-time logic is Kanata state; a lemma about prefix-freedom would be a proof about a model',
     'C13': 'one FxHashMap::get makes update_keys intractable for CBMC even with a concrete key; the filter closure mutates a captured counter (Verus rejects)',
     'C15': 'file I/O, a thread, and "behaves like a fresh instance" (relational)',
